@@ -65,6 +65,13 @@ def _factories(c):
     f["JanusSphere_Tapered"] = (JanusSphere_Tapered, dict(n=[R("n0", sample=(1.1, 2)), R("n1", sample=(1.1, 2))],
                                                          r=[R("r0", nonneg=True, sample=(0.1, 1)), R("r1", nonneg=True, sample=(0.1, 1))],
                                                          rotation=[R("al"), R("be")], center=cen("c")))
+    nc = c.complex("n_complex")
+    nc2 = c.complex("n_complex2")
+    if not c.symbolic:
+        nc, nc2 = np.complex128(complex(1.2 + abs(nc.real) % 1, -abs(nc.imag) % 0.5 - 0.01)), np.complex128(complex(1.3, abs(nc2.imag) % 0.5))
+    f["Sphere-complex-index"] = (Sphere, dict(n=nc, r=R("r", nonneg=True, sample=(0.1, 1)), center=cen("c")))
+    f["LayeredSphere-complex-indices"] = (LayeredSphere, dict(n=np.array([nc, nc2], dtype=object if c.symbolic else complex),
+                                                              t=[R("t0", nonneg=True, sample=(0.1, 1)), R("t1", nonneg=True, sample=(0.1, 1))], center=cen("c")))
     f["Uniform"] = (Uniform, dict(lower_bound=R("lo", sample=(-1, 0)), upper_bound=R("lo", sample=(-1, 0)) + R("w", pos=True, sample=(0.1, 2)), name='par'))
     f["Uniform-guess"] = (Uniform, dict(lower_bound=-1.0, upper_bound=2.0, guess=R("g", lo=-1, hi=2)))
     f["Gaussian"] = (Gaussian, dict(mu=R("mu"), sd=R("sd", pos=True, sample=(0.1, 2)), name='g'))
@@ -114,7 +121,7 @@ def _same(c, a, b):
     return c.eq(a, b)
 
 
-NAMES = ["Sphere", "Sphere-layered", "LayeredSphere", "Ellipsoid", "Spheroid", "Cylinder", "Capsule", "Bisphere", "JanusSphere_Uniform",
+NAMES = ["Sphere", "Sphere-complex-index", "LayeredSphere-complex-indices", "Sphere-layered", "LayeredSphere", "Ellipsoid", "Spheroid", "Cylinder", "Capsule", "Bisphere", "JanusSphere_Uniform",
          "JanusSphere_Tapered", "Uniform", "Uniform-guess", "Gaussian", "BoundedGaussian", "ComplexPrior", "LimitOverlaps", "MieLens",
          "AberratedMieLens", "Mie", "Multisphere", "Tmatrix", "Lens", "NmpfitStrategy", "NmpfitStrategy-damp", "LeastSquaresScipyStrategy",
          "EmceeStrategy", "CmaStrategy", "TemperedStrategy"]
@@ -133,10 +140,12 @@ def _state_contract(name):
             c.ensures("library-equality-holds", bool(clone == obj) if not c.symbolic else _same(c, clone._dict, obj._dict))
             if not c.symbolic:
                 text = yaml.dump(obj)
-                back = serialize.load(text) if hasattr(serialize, 'loads') else yaml.load(text, Loader=serialize.FullLoader if hasattr(serialize, 'FullLoader') else yaml.FullLoader)
-                c.ensures("yaml-text-round-trip", _same(c, back._dict, state) and yaml.dump(back) == text)
+                back = yaml.load(text, Loader=yaml.FullLoader)
+                c.ensures("yaml-text-reloads-to-the-same-state", _same(c, back._dict, state))
+                c.ensures("yaml-text-identical-after-reload", yaml.dump(back) == text)
             else:
-                c.ensures("yaml-text-round-trip", True)
+                c.ensures("yaml-text-reloads-to-the-same-state", True)
+                c.ensures("yaml-text-identical-after-reload", True)
     body.__doc__ = "%s: every constructor argument is kept as state, and cls(**state) rebuilds an equal object (same state, idempotent)" % name
     return body
 
@@ -153,6 +162,11 @@ def _none_cases():
         ("CmaStrategy.parallel", CmaStrategy, dict(popsize=8), "parallel"),
         ("TemperedStrategy.parallel", TemperedStrategy, dict(nwalkers=20, nsamples=10, npixels=100, stages=1), "parallel"),
         ("Ellipsoid.center", Ellipsoid, dict(n=1.5, r=(1., 2., 3.)), "center"),
+        ("NmpfitStrategy.damp", NmpfitStrategy, dict(), "damp"),                 # defaults that are falsy but not None
+        ("NmpfitStrategy.quiet", NmpfitStrategy, dict(), "quiet"),
+        ("MieLens.calculator_accuracy_kwargs", MieLens, dict(lens_angle=0.8), "calculator_accuracy_kwargs"),
+        ("Multisphere.compute_escat_radial", Multisphere, dict(), "compute_escat_radial"),
+        ("CmaStrategy.tols", CmaStrategy, dict(popsize=8, tols={}), "seed"),
         ("Spheres.warn", Spheres, dict(scatterers=[Sphere(n=1.5, r=0.5, center=(0, 0, 1))]), "warn"),
     ]
 
@@ -161,12 +175,14 @@ def _none_cases():
 def explicit_none(c):
     """an argument explicitly set to None is still None after save -> load (it must not silently turn back into a non-None default)"""
     label, cls, kw, par = c.choice("case", _none_cases())
-    obj = c.call(cls, **dict(kw, **{par: None}))
+    with deployed():
+        obj = c.call(cls, **dict(kw, **{par: None}))
+        clone = c.call(cls, **obj._dict)
     c.ensures("attribute-is-none", getattr(obj, par) is None)
-    clone = c.call(cls, **obj._dict)
     c.ensures("none-after-reload", getattr(clone, par) is None, detail=label)
     if not c.symbolic:
-        back = yaml.load(yaml.dump(obj), Loader=yaml.FullLoader)
+        with deployed():
+            back = yaml.load(yaml.dump(obj), Loader=yaml.FullLoader)
         c.ensures("none-after-yaml-text", getattr(back, par) is None, detail=label)
     else:
         c.ensures("none-after-yaml-text", getattr(clone, par) is None)
